@@ -80,6 +80,9 @@ class LineParser(object):
         for line in lines:
             fields = line.split(None, 4)
 
+            if len(fields) < 4:
+                raise ListingError('Not enough fields in MS-DOS listing line.')
+
             date_str = fields[0]
             time_str = fields[1]
 
